@@ -48,6 +48,15 @@ __CPROVER_ensures((str == NULL || str[0] == 0) ==> __CPROVER_return_value == ARE
 ;
 void h_str_isnum(void) { const char *s; g_n = nondet_size(); ares_str_isnum(s); }
 
+ares_bool_t ares_str_isalnum(const char *str)
+__CPROVER_requires(g_n >= 1 && g_n <= 70000 && (str == NULL || (__CPROVER_is_fresh(str, g_n) && str[g_n - 1] == 0)))
+__CPROVER_assigns()
+__CPROVER_ensures(__CPROVER_return_value == ARES_TRUE || __CPROVER_return_value == ARES_FALSE)
+__CPROVER_ensures(__CPROVER_return_value == ARES_TRUE ==> (str != NULL && ((str[0] >= '0' && str[0] <= '9') || (str[0] >= 'a' && str[0] <= 'z') || (str[0] >= 'A' && str[0] <= 'Z'))))
+__CPROVER_ensures((str == NULL || str[0] == 0) ==> __CPROVER_return_value == ARES_FALSE)
+;
+void h_str_isalnum(void) { const char *s; g_n = nondet_size(); ares_str_isalnum(s); }
+
 void h_str_isprint(void) { const char *s; size_t n; g_k = nondet_size(); __CPROVER_assume(g_k < 70000); ares_str_isprint(s, n); }
 void h_memeq_ci(void) { const unsigned char *a; const unsigned char *b; size_t n; g_k = nondet_size(); __CPROVER_assume(g_k < 70000); ares_memeq_ci(a, b, n); }
 void h_tolower(void) { unsigned char c; ares_tolower(c); }
